@@ -148,7 +148,7 @@ def spawned_before(p1, p2):
 
 
 def oneshot(rng, T, roots, fail=(), gated=True, tag='os', cap=None, hang_s=None, with_inputs=True, second_run=True, pre_args=(), hold_s=0.0,
-            implied_p=0.3, implied_edges=None, prefer=None):
+            implied_p=0.3, implied_edges=None, prefer=None, implied_keep_p=None):
     """Runs `zinoma <roots>` once. Returns (obs, verdicts): verdicts = {property_id: [text, ...]} for violated properties."""
     d = vf.scratch_dir(tag)
     spec = {}
@@ -173,9 +173,9 @@ def oneshot(rng, T, roots, fail=(), gated=True, tag='os', cap=None, hang_s=None,
                 chosen = ([t, dd] in [list(e) for e in implied_edges]) if implied_edges is not None else (rng.random() < implied_p)
                 if T[dd]['kind'] == 'build' and chosen:
                     spec[dd]['output'] = ['paths: [out/%s.txt]' % dd]
-                    spec[dd]['effect'] = 'mkdir -p out; echo "built" > out/%s.txt' % dd
+                    spec[dd]['effect'] = 'mkdir -p out; cat in/%s/src.txt > out/%s.txt' % (dd, dd)      # output = a copy of its own input
                     spec[t]['input'] = spec[t].get('input', []) + ['%s.output' % dd]
-                    if implied_p >= 1.0 or implied_edges is not None or rng.random() < 0.7:
+                    if (rng.random() >= implied_keep_p) if implied_keep_p is not None else (implied_p >= 1.0 or implied_edges is not None or rng.random() < 0.7):
                         spec[t]['deps'] = [x for x in spec[t]['deps'] if x != dd]      # the edge exists through the input only
                     implied.append((t, dd))
     proj = blackbox.Project(d, spec)
@@ -342,6 +342,34 @@ def oneshot(rng, T, roots, fail=(), gated=True, tag='os', cap=None, hang_s=None,
                 second = {'outcome': o2, 'exit_code': run2.exit_code, 'trace': tr2}
             finally:
                 run2.kill(skip_first=n1)       # the shells of the FIRST invocation are judged below: leave them alone
+        # third invocation after ONE change: the input of a producer is edited, so its script runs again and rewrites its output
+        # with new content; every consumer that inherits that output through `X.output` must run again (C02), whether or not it
+        # also lists X under `dependencies`
+        if second is not None and implied and not failed and second.get('outcome') == 'exited':
+            x = rng.choice(sorted({dd for _, dd in implied}))
+            with open(os.path.join(d, 'in', x, 'src.txt'), 'a') as f:
+                f.write('edited\n')
+            n2 = len(run.trace())
+            run3 = blackbox.Run(proj, list(roots), env=env)
+            try:
+                if gated:
+                    o3 = blackbox.drive_to_end(run3, rng, fail={}, hang_s=hang_s)
+                else:
+                    o3 = 'exited' if run3.wait_exit(hang_s or blackbox.HANG_S) else 'hung'
+                tr3 = run3.trace()[n2:]
+                started3 = {t for k, t, _ in tr3 if k == 'start'}
+                if x in clo and x not in started3:
+                    bad('C02', 'the input of %s was edited but its script did not run in the next invocation' % x)
+                for (t, dd) in implied:
+                    if dd == x and t in clo and x in started3 and t not in started3:
+                        bad('C02', '%s inherits %s.output; %s ran again and rewrote its output with new content, yet %s was skipped'
+                            % (t, x, x, t))
+                second['after_edit_of'] = x
+                second['third_run_trace'] = tr3
+                if o3 != 'exited':
+                    bad('C04', 'the invocation after an edit did not terminate')
+            finally:
+                run3.kill(skip_first=n1 if False else 0)
         # shutdown (C10/C11): stop it if still alive, then nothing of ours may be left
         t_sig = None
         if run.poll() is None:
